@@ -11,7 +11,7 @@ DEFAULT_DEFS = ['-DNDEBUG', '-DMP_USE_ATOMIC', '-DMP_USE_HASH', '-DMP_USE_UNIQUE
 CLANG_FLAGS = ['-std=c++17', '-O1', '-fno-vectorize', '-fno-slp-vectorize', '-fno-unroll-loops', '-w',
                '-fno-strict-aliasing', '-include', os.path.join(os.path.dirname(os.path.abspath(__file__)), 'vf_noextern.h')]
 CBMC_FLAGS = ['--unwinding-assertions', '--pointer-overflow-check', '--undefined-shift-check', '--signed-overflow-check',
-              '--drop-unused-functions', '--no-malloc-may-fail']
+              '--drop-unused-functions', '--no-malloc-may-fail', '--max-field-sensitivity-array-size', '300']
 
 def repo_defs():
     """production -D set, read from the baseline build when present"""
@@ -62,7 +62,7 @@ class Harness:
                  assumptions=(), witness=True, tv_cases=200, known=(), flags=(), expect_fail_props=(), replayable=True, depth=None):
         s.name = name; s.unit = unit; s.unwind = unwind; s.unwindset = list(unwindset); s.backend = backend; s.timeout = timeout
         s.mem_gb = mem_gb; s.defines = list(defines); s.bounds = bounds; s.claims = claims; s.assumptions = list(assumptions)
-        s.witness = witness; s.tv_cases = tv_cases; s.known = list(known); s.flags = list(flags); s.replayable = replayable
+        s.witness = witness; s.tv_cases = tv_cases; s.known = list(known); s.flags = list(flags); s.replayable = replayable; s.label = None
 
 def known_findings(prop):
     """returns (known: {key: text}, fixed: [text])"""
@@ -89,6 +89,7 @@ class Check:
         s.defs = repo_defs()
         s.solver_time = 0.0; s.tv_total = 0; s.spurious = []; s.unconfirmed_ub = []
         s.keep = bool(os.environ.get('VERIF_KEEP'))
+        import threading; s.lock = threading.Lock()
     def log(s, *a):
         print('[%s %6.1fs]' % (s.prop, time.time() - s.t0), *a, file=sys.stderr); sys.stderr.flush()
     def cleanup(s):
@@ -142,6 +143,8 @@ class Check:
         """which: 'gen' (translated C, gcc) or 'real' (g++ build of the wrappers from /repo, sanitizers)"""
         u = info['unit']; d = info['dir']; exe = os.path.join(d, 'native_' + which)
         if os.path.exists(exe): return exe
+        if info.get('native_failed_' + which): return None
+        info['native_failed_' + which] = True      # reset below on success
         inc = ['-I' + TOOLS, '-I' + d, '-I' + s.hdir]
         hc = os.path.join(s.hdir, u.harness)
         extra = [os.path.join(s.hdir, x) for x in u.extra_c]
@@ -176,6 +179,7 @@ class Check:
                 info['stubbed_undefined'] = syms
                 rc, out, err, dt = run(['g++', '-Wl,--no-demangle'] + san + objs + cobjs + [os.path.join(d, 'undef_stubs.s')] + u.real_link + ['-lm', '-o', exe], timeout=300)
             if rc != 0: s.log('real link failed:', err[-1500:]); return None
+        info['native_failed_' + which] = False
         return exe
 
     def translator_validation(s, info, h):
@@ -221,7 +225,7 @@ class Check:
         return props, verdict
 
     def run_harness(s, info, h):
-        res = {'harness': h.name, 'unit': h.unit, 'bounds': h.bounds, 'claims': h.claims, 'assumptions': h.assumptions,
+        res = {'harness': h.label or h.name, 'function': h.name, 'unit': h.unit, 'bounds': h.bounds, 'claims': h.claims, 'assumptions': h.assumptions,
                'unwind': h.unwind, 'unwindset': h.unwindset, 'backend': h.backend, 'known_applied': [k for k in h.known if k in s.known]}
         from concurrent.futures import ThreadPoolExecutor as _TP
         with _TP(max_workers=2) as ex2:
@@ -262,9 +266,30 @@ class Check:
         feed = [int(m.group(1)) for m in re.finditer(r'^\s*vf_ndv=(\d+)u?l*\b', body, re.M)]
         return feed, out
 
+    def real_for(s, info, h):
+        """real-build binary whose harness.c is compiled with this harness instance's -D defines"""
+        base = s.build_native(info, 'real')
+        defs = list(h.defines) + ['KF_' + k for k in h.known if k in s.known]
+        if not base or not defs: return base
+        u = info['unit']; d = info['dir']
+        tag = hashlib.sha1(' '.join(defs).encode()).hexdigest()[:10]
+        exe = os.path.join(d, 'native_real_' + tag)
+        with s.lock:
+            if os.path.exists(exe): return exe
+            inc = ['-I' + TOOLS, '-I' + d, '-I' + s.hdir]
+            o = os.path.join(d, 'realh_%s.o' % tag)
+            rc, out, err, dt = run(['gcc', '-O1', '-g', '-w', '-DVF_NATIVE', '-DVF_REAL', '-fno-strict-aliasing'] + ['-D' + x for x in u.cdefs + defs] + inc + ['-c', os.path.join(s.hdir, u.harness), '-o', o], timeout=300)
+            if rc != 0: return None
+            objs = [os.path.join(d, f) for f in sorted(os.listdir(d)) if re.match(r'real\d+\.o$', f) or (re.match(r'realc\d+\.o$', f) and f != 'realc2.o')]
+            extra = [os.path.join(d, 'undef_stubs.s')] if os.path.exists(os.path.join(d, 'undef_stubs.s')) else []
+            san = ['-fsanitize=address,undefined', '-fno-omit-frame-pointer'] if u.san else []
+            rc, out, err, dt = run(['g++', '-Wl,--no-demangle'] + san + objs + [o] + extra + u.real_link + ['-lm', '-o', exe], timeout=300)
+            if rc != 0: s.log('real relink failed', err[-500:]); return None
+        return exe
+
     def replay(s, info, h, feed, expect_desc):
         """replay on the REAL build; returns (confirmed, detail)"""
-        r = s.build_native(info, 'real')
+        r = s.real_for(info, h)
         if not r: return None, 'real build failed'
         rd = os.path.join(VERIF, 'replays', s.prop); os.makedirs(rd, exist_ok=True)
         key = hashlib.sha1((h.name + expect_desc + repr(feed)).encode()).hexdigest()[:10]
@@ -289,11 +314,11 @@ class Check:
         def one(h):
             info = s.units.get(h.unit)
             if not info or not info['ok']:
-                return {'harness': h.name, 'unit': h.unit, 'status': 'not-built'}
+                return {'harness': h.label or h.name, 'unit': h.unit, 'status': 'not-built'}
             tv = s.translator_validation(info, h)
             if tv.get('done') and not tv.get('agree'):
                 s.log('TRANSLATOR-MISMATCH', h.name, tv)
-                return {'harness': h.name, 'unit': h.unit, 'status': 'translator-mismatch', 'tv': tv}
+                return {'harness': h.label or h.name, 'unit': h.unit, 'status': 'translator-mismatch', 'tv': tv}
             res, out = s.run_harness(info, h)
             res['tv'] = tv
             if res['status'] == 'fail':
@@ -314,7 +339,7 @@ class Check:
                         if 'pointer_arithmetic' in pname or 'pointer arithmetic' in ptext: s.unconfirmed_ub.append((h.name, ptext))
                         else: s.spurious.append((h.name, ptext))
                 res['status'] = 'violation' if seen_confirm else 'inconclusive'
-            s.log('%-34s %-12s %6.1fs props=%s' % (h.name, res['status'], res.get('wall_s', 0), res.get('properties')))
+            s.log('%-34s %-12s %6.1fs props=%s' % (h.label or h.name, res['status'], res.get('wall_s', 0), res.get('properties')))
             return res
         with ThreadPoolExecutor(max_workers=jobs) as ex:
             s.results = list(ex.map(one, harnesses))
